@@ -1,0 +1,31 @@
+//go:build verif
+
+package verifhook
+
+import (
+	"github.com/emmansun/gmsm/internal/bigmod"
+	"github.com/emmansun/gmsm/internal/sm2ec"
+	"github.com/emmansun/gmsm/internal/sm3"
+	"github.com/emmansun/gmsm/internal/sm4"
+	"github.com/emmansun/gmsm/internal/sm9/bn256"
+	"github.com/emmansun/gmsm/internal/zuc"
+)
+
+// Dispatch reports which implementation tier every package selected in this
+// process, keyed "<package>.<variable>". Read-only.
+func Dispatch() map[string]bool {
+	out := map[string]bool{}
+	for pkg, m := range map[string]map[string]bool{
+		"sm3":    sm3.VerifDispatch(),
+		"sm4":    sm4.VerifDispatch(),
+		"zuc":    zuc.VerifDispatch(),
+		"sm2ec":  sm2ec.VerifDispatch(),
+		"bn256":  bn256.VerifDispatch(),
+		"bigmod": bigmod.VerifDispatch(),
+	} {
+		for k, v := range m {
+			out[pkg+"."+k] = v
+		}
+	}
+	return out
+}
